@@ -171,3 +171,21 @@ def _is_float_carrier(c):
     if isinstance(c, (list, tuple)):
         return all(_is_float_carrier(x) for x in c) and len(c) > 0
     return False
+
+
+def underflows_to_zero(v, n_frac):
+    """the exact scaled value v*2^n_frac is non-zero but at most 2^-1075: the double product is +-0 (known finding
+    store.scaled_underflow_to_zero: the library scales in double arithmetic, so floor/ceil/underflow of such inputs see 0)"""
+    return n_frac < 0 and v != 0 and abs(v) * (F(2) ** n_frac) <= F(1, 2 ** 1075)
+
+
+def as_library_sees(si, n_frac):
+    """copy of the exact input values in which values whose scaled double product underflows are replaced by 0; None if there is none"""
+    if si.is_complex:
+        alt = [tuple(F(0) if underflows_to_zero(c, n_frac) else c for c in v) for v in si.values]
+    else:
+        alt = [F(0) if underflows_to_zero(v, n_frac) else v for v in si.values]
+    return alt if alt != si.values else None
+
+
+UNDERFLOW_KEY = 'store.scaled_underflow_to_zero'
